@@ -38,7 +38,7 @@ import sys
 import gin
 from gin import config as gc
 
-BOUNDS = ('histories of 1..8 operations drawn from 52 concrete operations (parse of 20 texts, 7 of '
+BOUNDS = ('histories of 1..8 operations drawn from 53 concrete operations (parse of 21 texts, 7 of '
           'them failing, bind incl. invalid keys, calls in 3 scopes, finalize, unlock_config with a '
           'raising body, constants incl. interactive shadowing, intermediate clear/observe), plus '
           '10 operations defining constants in the `gin.` namespace (2 names, re-definition, '
